@@ -281,9 +281,20 @@ def parse_rvalue(s):
             fm = re.match(r"^(\w+): (.*)$", part)
             fields.append((fm.group(1), parse_operand(fm.group(2))))
         return ("struct", m.group(1), fields)
-    m = re.match(r"^([\w:<>, &';\[\]\(\)]+?)\((.*)\)$", s)
-    if m:
-        return ("variant", m.group(1), [parse_operand(p) for p in split_top(m.group(2))])
+    if s.endswith(")") and re.match(r"^[\w<(&\[]", s):
+        # the argument list is the parenthesis group that closes at the end of the text (the type path before it may itself
+        # contain tuples: `Option::<(&[char], u8)>::Some(move _10)`)
+        depth, k = 0, None
+        for i in range(len(s) - 1, -1, -1):
+            if s[i] == ")":
+                depth += 1
+            elif s[i] == "(":
+                depth -= 1
+                if depth == 0:
+                    k = i
+                    break
+        if k and re.fullmatch(r"[\w:<>, &';\[\]\(\)]+", s[:k]):
+            return ("variant", s[:k], [parse_operand(p) for p in split_top(s[k + 1:-1])])
     if re.fullmatch(r"[\w:<>, &'\[\]\(\);]+", s) and ("::" in s or re.fullmatch(r"[A-Z]\w*", s)):
         return ("variant", s, [])
     raise Unsupported(f"rvalue: {s}")
